@@ -18,6 +18,10 @@ import re
 import subprocess
 import sys
 import threading
+import signal
+import time
+
+PER_CHECK_TIMEOUT = 420
 
 REPO = "/repo"
 OUT = "/verif/seeded/automut.json"
@@ -223,7 +227,17 @@ def phase2(limit):
         try:
             res = {}
             for c in FILES[m["file"]]:
-                r = sh("./check %s 2>&1" % c, cwd="/verif", timeout=3600)
+                t0 = time.time()
+                pr = subprocess.Popen("./check %s 2>&1" % c, shell=True, cwd="/verif", stdout=subprocess.PIPE, text=True, start_new_session=True,
+                                      env=dict(os.environ, CARGO_NET_OFFLINE="true"))
+                try:
+                    out, _ = pr.communicate(timeout=PER_CHECK_TIMEOUT)
+                except subprocess.TimeoutExpired:
+                    os.killpg(pr.pid, signal.SIGKILL)
+                    pr.communicate()
+                    res[c] = "timeout(>%ds)" % PER_CHECK_TIMEOUT
+                    continue
+                r = subprocess.CompletedProcess(pr.args, pr.returncode, out, "")
                 viol = len(re.findall(r"^VIOLATION property=", r.stdout, re.M))
                 notes = len(re.findall(r"^NOTE", r.stdout, re.M))
                 res[c] = ("DETECTED" if r.returncode == 1 and viol else ("tool-error" if r.returncode not in (0, 1) else "missed")) + ("+NOTE" if notes else "")
